@@ -1,1 +1,576 @@
-(* C15 stub: to be written *)
+(* C15 -- proofs about the imaging model (Model/Imaging.v).
+   Analysis: the 'box' form factor IS the voxel average of the plane wave (is_RInt through
+   antiderivatives), per axis; linear combinations (whole state lists) by induction.
+   Algebra: point probe = plain synthesis, imaginary modulation = time character / off-resonance,
+   real modulation, masks (soundness + error bound), reduce, option resolution, repeated use. *)
+From Coq Require Import Reals Lra Psatz List Bool.
+From Coquelicot Require Import Coquelicot.
+From EPG Require Import Scalar CInst Imaging.
+Import ListNotations.
+Local Open Scope R_scope.
+
+Lemma sinc_np_0 u : u = 0 -> sinc_np u = 1.
+Proof. intros ->. unfold sinc_np. destruct (Req_EM_T 0 0); [reflexivity|congruence]. Qed.
+Lemma sinc_np_neq u : u <> 0 -> sinc_np u = sin (PI * u) / (PI * u).
+Proof. intros H. unfold sinc_np. destruct (Req_EM_T u 0); [contradiction|reflexivity]. Qed.
+
+Lemma int_cos k a b : k <> 0 -> is_RInt (fun u => cos (k * u)) a b (sin (k * b) / k - sin (k * a) / k).
+Proof.
+  intros Hk.
+  apply (is_RInt_derive (fun u => sin (k * u) / k) (fun u => cos (k * u))).
+  - intros x _. auto_derive; trivial. field. exact Hk.
+  - intros x _. apply continuous_comp.
+    + apply (continuous_scal_r k (fun u : R => u)). apply continuous_id.
+    + apply continuity_pt_filterlim. apply continuity_cos.
+Qed.
+
+Lemma int_sin k a b : k <> 0 -> is_RInt (fun u => sin (k * u)) a b (- cos (k * b) / k - - cos (k * a) / k).
+Proof.
+  intros Hk.
+  apply (is_RInt_derive (fun u => - cos (k * u) / k) (fun u => sin (k * u))).
+  - intros x _. auto_derive; trivial. field. exact Hk.
+  - intros x _. apply continuous_comp.
+    + apply (continuous_scal_r k (fun u : R => u)). apply continuous_id.
+    + apply continuity_pt_filterlim. apply continuity_sin.
+Qed.
+
+(* the source's scaling: sinc_np (k * D / 2 / PI) = sin (k D / 2) / (k D / 2) *)
+Lemma sinc_arg_val k D : k <> 0 -> D <> 0 ->
+  sinc_np (sinc_arg k D) = 2 * sin (k * D / 2) / (k * D).
+Proof.
+  intros Hk HD. pose proof PI_RGT_0 as Hpi.
+  assert (Hu : sinc_arg k D <> 0).
+  { unfold sinc_arg. intros E. apply (Rmult_integral_contrapositive_currified k D Hk HD).
+    assert (E2 : k * D = (k * D / 2 / PI) * (2 * PI)) by (field; lra). rewrite E2, E. ring. }
+  rewrite (sinc_np_neq _ Hu). unfold sinc_arg.
+  replace (PI * (k * D / 2 / PI)) with (k * D / 2) by (field; lra).
+  field. split; assumption.
+Qed.
+
+Lemma box_cos k x D : k <> 0 -> D <> 0 ->
+  is_RInt (fun u => cos (k * u)) (x - D / 2) (x + D / 2) (D * (cos (k * x) * sinc_np (sinc_arg k D))).
+Proof.
+  intros Hk HD. rewrite (sinc_arg_val k D Hk HD).
+  replace (D * (cos (k * x) * (2 * sin (k * D / 2) / (k * D))))
+    with (sin (k * (x + D / 2)) / k - sin (k * (x - D / 2)) / k).
+  - apply int_cos; exact Hk.
+  - replace (k * (x + D / 2)) with (k * x + k * D / 2) by field.
+    replace (k * (x - D / 2)) with (k * x - k * D / 2) by field.
+    rewrite sin_plus, sin_minus. field. split; assumption.
+Qed.
+
+Lemma box_sin k x D : k <> 0 -> D <> 0 ->
+  is_RInt (fun u => sin (k * u)) (x - D / 2) (x + D / 2) (D * (sin (k * x) * sinc_np (sinc_arg k D))).
+Proof.
+  intros Hk HD. rewrite (sinc_arg_val k D Hk HD).
+  replace (D * (sin (k * x) * (2 * sin (k * D / 2) / (k * D))))
+    with (- cos (k * (x + D / 2)) / k - - cos (k * (x - D / 2)) / k).
+  - apply int_sin; exact Hk.
+  - replace (k * (x + D / 2)) with (k * x + k * D / 2) by field.
+    replace (k * (x - D / 2)) with (k * x - k * D / 2) by field.
+    rewrite cos_plus, cos_minus. field. split; assumption.
+Qed.
+Lemma box_cos_all k x D : D <> 0 ->
+  is_RInt (fun u => cos (k * u)) (x - D / 2) (x + D / 2) (D * (cos (k * x) * sinc_np (sinc_arg k D))).
+Proof.
+  intros HD. destruct (Req_EM_T k 0) as [->|Hk]; [|now apply box_cos].
+  rewrite (sinc_np_0 (sinc_arg 0 D)) by (unfold sinc_arg; field; apply PI_neq0).
+  apply (is_RInt_ext (fun _ => 1)).
+  - intros u _. now rewrite Rmult_0_l, cos_0.
+  - rewrite Rmult_0_l, cos_0.
+    replace (D * (1 * 1)) with (scal (x + D / 2 - (x - D / 2)) 1) by (unfold scal; simpl; unfold mult; simpl; field).
+    apply (@is_RInt_const R_NormedModule).
+Qed.
+
+Lemma box_sin_all k x D : D <> 0 ->
+  is_RInt (fun u => sin (k * u)) (x - D / 2) (x + D / 2) (D * (sin (k * x) * sinc_np (sinc_arg k D))).
+Proof.
+  intros HD. destruct (Req_EM_T k 0) as [->|Hk]; [|now apply box_sin].
+  apply (is_RInt_ext (fun _ => 0)).
+  - intros u _. now rewrite Rmult_0_l, sin_0.
+  - rewrite Rmult_0_l, sin_0.
+    replace (D * (0 * sinc_np (sinc_arg 0 D))) with (scal (x + D / 2 - (x - D / 2)) 0) by (unfold scal; simpl; unfold mult; simpl; ring).
+    apply (@is_RInt_const R_NormedModule).
+Qed.
+
+(* componentwise integral of a C-valued function *)
+Definition CInt (f : R -> C) (a b : R) (I : C) : Prop :=
+  is_RInt (fun u => fst (f u)) a b (fst I) /\ is_RInt (fun u => snd (f u)) a b (snd I).
+
+Lemma CInt_pair f a b I : CInt f a b I ->
+  is_RInt (V := prod_NormedModule R_AbsRing R_NormedModule R_NormedModule) f a b I.
+Proof. intros [H1 H2]. destruct I as [Ir Ii]. exact (is_RInt_fct_extend_pair f a b Ir Ii H1 H2). Qed.
+
+Lemma RInt_zero_R a b : is_RInt (fun _ : R => 0) a b 0.
+Proof.
+  pose proof (@is_RInt_const R_NormedModule a b 0) as H.
+  rewrite (@scal_zero_r _ R_NormedModule) in H. exact H.
+Qed.
+
+Lemma CInt_zero a b : CInt (fun _ => RtoC 0) a b (RtoC 0).
+Proof. split; simpl; apply RInt_zero_R. Qed.
+
+Lemma CInt_plus f g a b I J : CInt f a b I -> CInt g a b J ->
+  CInt (fun u => Cplus (f u) (g u)) a b (Cplus I J).
+Proof.
+  intros [F1 F2] [G1 G2]. split; simpl.
+  - exact (is_RInt_plus (V := R_NormedModule) _ _ a b _ _ F1 G1).
+  - exact (is_RInt_plus (V := R_NormedModule) _ _ a b _ _ F2 G2).
+Qed.
+
+Lemma CInt_cmul c f a b I : CInt f a b I -> CInt (fun u => Cmult c (f u)) a b (Cmult c I).
+Proof.
+  intros [F1 F2]. split; simpl.
+  - apply (is_RInt_minus (V := R_NormedModule) (fun u => fst c * fst (f u)) (fun u => snd c * snd (f u))).
+    + exact (is_RInt_scal (V := R_NormedModule) _ a b (fst c) _ F1).
+    + exact (is_RInt_scal (V := R_NormedModule) _ a b (snd c) _ F2).
+  - apply (is_RInt_plus (V := R_NormedModule) (fun u => fst c * snd (f u)) (fun u => snd c * fst (f u))).
+    + exact (is_RInt_scal (V := R_NormedModule) _ a b (fst c) _ F2).
+    + exact (is_RInt_scal (V := R_NormedModule) _ a b (snd c) _ F1).
+Qed.
+
+Lemma CInt_ext f g a b I : (forall u, f u = g u) -> CInt f a b I -> CInt g a b I.
+Proof.
+  intros E [H1 H2]. split.
+  - apply (is_RInt_ext (fun u => fst (f u))); [intros; now rewrite E|exact H1].
+  - apply (is_RInt_ext (fun u => snd (f u))); [intros; now rewrite E|exact H2].
+Qed.
+
+(* the voxel average of the plane wave exp(i k u) *)
+Lemma box_cis k x D : D <> 0 ->
+  CInt (fun u => cis (k * u)) (x - D / 2) (x + D / 2)
+       (Cmult (RtoC D) (Cmult (RtoC (sinc_np (sinc_arg k D))) (cis (k * x)))).
+Proof.
+  intros HD. split; simpl.
+  - replace (D * (sinc_np (sinc_arg k D) * cos (k * x) - 0 * sin (k * x)) -
+             0 * (sinc_np (sinc_arg k D) * sin (k * x) + 0 * cos (k * x)))
+      with (D * (cos (k * x) * sinc_np (sinc_arg k D))) by ring.
+    now apply box_cos_all.
+  - replace (D * (sinc_np (sinc_arg k D) * sin (k * x) + 0 * cos (k * x)) +
+             0 * (sinc_np (sinc_arg k D) * cos (k * x) - 0 * sin (k * x)))
+      with (D * (sin (k * x) * sinc_np (sinc_arg k D))) by ring.
+    now apply box_sin_all.
+Qed.
+
+(* ================= model level ================= *)
+
+Definition as_point (c : icfg) : icfg :=
+  mkCfg Point (vsize c) (tol c) (timed c) (modul c) (phase c) (weight c).
+Definition as_box (c : icfg) (ds : list R) : icfg :=
+  mkCfg Box ds (tol c) (timed c) (modul c) (phase c) (weight c).
+
+(* everything of a term that does not depend on the position or the voxel *)
+Definition coef (c : icfg) (s : pstate) : C := Cmult (Cmult (modfac c s) (sF s)) (wfac c).
+
+Lemma term_split c x s :
+  term c x s = Cmult (coef c s) (Cmult (RtoC (form c s)) (cis (kdot (sk s) x))).
+Proof. unfold term, coef. ring. Qed.
+
+Lemma coef_as_point c s : coef (as_point c) s = coef c s.
+Proof. reflexivity. Qed.
+Lemma coef_as_box c ds s : coef (as_box c ds) s = coef c s.
+Proof. reflexivity. Qed.
+
+Definition one_column (s : pstate) : Prop := exists k, sk s = [k].
+
+(* box_is_average, whole probe, one spatial dimension, no masking:
+   the 'box' value at x is the average over [x - D/2, x + D/2] of the 'point' values *)
+Theorem box_is_average_1d c l x D : D <> 0 -> List.Forall one_column l ->
+  CInt (fun u => img_all (as_point c) [u] l) (x - D / 2) (x + D / 2)
+       (Cmult (RtoC D) (img_all (as_box c [D]) [x] l)).
+Proof.
+  intros HD Hl. induction Hl as [|s l [k Hk] Hl IH].
+  - unfold img_all. simpl. replace (Cmult (RtoC D) (RtoC 0)) with (RtoC 0) by ring. apply CInt_zero.
+  - unfold img_all in *. cbn [map sumC].
+    replace (Cmult (RtoC D) (Cplus (term (as_box c [D]) [x] s) (sumC (map (term (as_box c [D]) [x]) l))))
+      with (Cplus (Cmult (coef c s) (Cmult (RtoC D) (Cmult (RtoC (sinc_np (sinc_arg k D))) (cis (k * x)))))
+                  (Cmult (RtoC D) (sumC (map (term (as_box c [D]) [x]) l)))).
+    + apply CInt_plus; [|exact IH].
+      apply (CInt_ext (fun u => Cmult (coef c s) (cis (k * u)))).
+      * intros u. rewrite term_split, coef_as_point. unfold form. cbn [shape as_point]. rewrite Hk. cbn [kdot].
+        rewrite Rplus_0_r. ring.
+      * apply CInt_cmul. now apply box_cis.
+    + rewrite (term_split (as_box c [D])), coef_as_box. unfold form, boxform. cbn [shape vsize as_box]. rewrite Hk.
+      cbn [map2 prodR kdot]. rewrite Rplus_0_r, Rmult_1_r. ring.
+Qed.
+
+(* two dimensions: the box value is the ITERATED average (axis 1 inside, axis 2 outside) of the point
+   values; that the iterated average equals the average for the area measure (Fubini) is not proved *)
+Definition two_columns (s : pstate) : Prop := exists k1 k2, sk s = [k1; k2].
+
+Theorem box_is_iterated_average_2d c l x1 x2 D1 D2 : D1 <> 0 -> D2 <> 0 -> List.Forall two_columns l ->
+  exists inner : R -> C,
+    (forall u2, CInt (fun u1 => img_all (as_point c) [u1; u2] l) (x1 - D1 / 2) (x1 + D1 / 2)
+                     (Cmult (RtoC D1) (inner u2))) /\
+    CInt inner (x2 - D2 / 2) (x2 + D2 / 2) (Cmult (RtoC D2) (img_all (as_box c [D1; D2]) [x1; x2] l)).
+Proof.
+  intros H1 H2 Hl. induction Hl as [|s l [k1 [k2 Hk]] Hl [inner [IHa IHb]]].
+  - exists (fun _ => RtoC 0). unfold img_all. simpl. split; [intros u2|];
+    (replace (Cmult (RtoC _) (RtoC 0)) with (RtoC 0) by ring); apply CInt_zero.
+  - exists (fun u2 => Cplus (Cmult (Cmult (coef c s) (Cmult (RtoC (sinc_np (sinc_arg k1 D1))) (cis (k1 * x1))))
+                                   (cis (k2 * u2))) (inner u2)).
+    unfold img_all in *. cbn [map sumC]. split.
+    + intros u2.
+      replace (Cmult (RtoC D1) (Cplus (Cmult (Cmult (coef c s) (Cmult (RtoC (sinc_np (sinc_arg k1 D1))) (cis (k1 * x1)))) (cis (k2 * u2))) (inner u2)))
+        with (Cplus (Cmult (Cmult (coef c s) (cis (k2 * u2))) (Cmult (RtoC D1) (Cmult (RtoC (sinc_np (sinc_arg k1 D1))) (cis (k1 * x1)))))
+                    (Cmult (RtoC D1) (inner u2))) by ring.
+      apply CInt_plus; [|exact (IHa u2)].
+      apply (CInt_ext (fun u => Cmult (Cmult (coef c s) (cis (k2 * u2))) (cis (k1 * u)))).
+      * intros u. rewrite term_split, coef_as_point. unfold form. cbn [shape as_point]. rewrite Hk. cbn [kdot].
+        rewrite Rplus_0_r, cis_add. ring.
+      * apply CInt_cmul. now apply box_cis.
+    + replace (Cmult (RtoC D2) (Cplus (term (as_box c [D1; D2]) [x1; x2] s) (sumC (map (term (as_box c [D1; D2]) [x1; x2]) l))))
+        with (Cplus (Cmult (Cmult (coef c s) (Cmult (RtoC (sinc_np (sinc_arg k1 D1))) (cis (k1 * x1))))
+                           (Cmult (RtoC D2) (Cmult (RtoC (sinc_np (sinc_arg k2 D2))) (cis (k2 * x2)))))
+                    (Cmult (RtoC D2) (sumC (map (term (as_box c [D1; D2]) [x1; x2]) l)))).
+      * apply CInt_plus; [|exact IHb]. apply CInt_cmul. now apply box_cis.
+      * rewrite (term_split (as_box c [D1; D2])), coef_as_box. unfold form, boxform. cbn [shape vsize as_box]. rewrite Hk.
+        cbn [map2 prodR kdot]. rewrite Rplus_0_r, Rmult_1_r, cis_add.
+        rewrite (RtoC_mult (sinc_np (sinc_arg k1 D1)) (sinc_np (sinc_arg k2 D2))). ring.
+Qed.
+
+(* the product form: one sinc per wavenumber column (definition of the separable average) *)
+Lemma boxform_cons d ds k ks : boxform (d :: ds) (k :: ks) = sinc_np (sinc_arg k d) * boxform ds ks.
+Proof. reflexivity. Qed.
+Lemma kdot_cons k ks x xs : cis (kdot (k :: ks) (x :: xs)) = Cmult (cis (k * x)) (cis (kdot ks xs)).
+Proof. cbn [kdot]. apply cis_add. Qed.
+
+(* ---------- masks ---------- *)
+Lemma keepb_true c s : keepP c s -> keepb c s = true.
+Proof.
+  unfold keepP, kkeepP, mkeepP, keepb, kkeepb, mkeepb. intros [Hk Hm].
+  destruct (shape c).
+  - destruct (modul_eff c); [destruct (Rlt_dec (tol c) (modre c s)); [reflexivity|contradiction]|reflexivity].
+  - destruct (Rlt_dec (tol c) (Rabs (form c s))); [|contradiction].
+    destruct (modul_eff c); [destruct (Rlt_dec (tol c) (modre c s)); [reflexivity|contradiction]|reflexivity].
+Qed.
+
+Lemma keepb_false c s : dropP c s -> keepb c s = false.
+Proof.
+  unfold dropP, kdropP, mdropP, keepb, kkeepb, mkeepb. intros [Hk|Hm].
+  - destruct (shape c); [contradiction|].
+    destruct (Rlt_dec (tol c) (Rabs (form c s))); [lra|reflexivity].
+  - destruct (modul_eff c); [|contradiction].
+    destruct (Rlt_dec (tol c) (modre c s)); [lra|]. apply andb_false_r.
+Qed.
+
+Definition mask_ok (c : icfg) (b : bool) (s : pstate) : Prop :=
+  (b = true -> keepP c s) /\ (b = false -> dropP c s).
+
+(* what the Interval tie establishes per case, transported to the model's own decision *)
+Theorem img_of_masks c x keeps l : Forall2 (mask_ok c) keeps l -> img_list keeps c x l = img c x l.
+Proof.
+  unfold img. induction 1 as [|b s keeps l [Ht Hf] _ IH]; [reflexivity|].
+  cbn [map img_list]. rewrite IH. destruct b.
+  - now rewrite (keepb_true c s (Ht eq_refl)).
+  - now rewrite (keepb_false c s (Hf eq_refl)).
+Qed.
+
+Lemma img_list_all c x l : img_list (map (fun _ => true) l) c x l = img_all c x l.
+Proof. unfold img_all. induction l as [|s l IH]; [reflexivity|]. cbn [map img_list sumC]. now rewrite IH. Qed.
+
+Lemma Cmod_cis t : Cmod (cis t) = 1.
+Proof.
+  unfold Cmod, cis. simpl. rewrite !Rmult_1_r.
+  replace (cos t * cos t + sin t * sin t) with 1; [apply sqrt_1|].
+  pose proof (sin2_cos2 t) as H. unfold Rsqr in H. lra.
+Qed.
+
+Lemma Cmod_RtoC r : Cmod (RtoC r) = Rabs r.
+Proof. apply Cmod_R. Qed.
+
+Lemma Cmod_phasefac c : Cmod (phasefac c) = 1.
+Proof. unfold phasefac. destruct (phase c); [apply Cmod_cis|]. rewrite Cmod_RtoC. apply Rabs_R1. Qed.
+Lemma Cmod_modim c s : Cmod (modim c s) = 1.
+Proof.
+  unfold modim. destruct (modul_eff c) as [[re [im|]]|]; [apply Cmod_cis| |]; rewrite Cmod_RtoC; apply Rabs_R1.
+Qed.
+Lemma modre_pos c s : 0 < modre c s.
+Proof. unfold modre. destruct (modul_eff c) as [[re im]|]; [apply exp_pos|lra]. Qed.
+
+Lemma Cmod_term c x s :
+  Cmod (term c x s) = Rabs (form c s) * modre c s * Cmod (Cmult (wfac c) (sF s)).
+Proof.
+  unfold term, modfac. rewrite !Cmod_mult, Cmod_cis, Cmod_phasefac, Cmod_modim, !Cmod_RtoC.
+  rewrite (Rabs_pos_eq (modre c s)) by (apply Rlt_le, modre_pos). ring.
+Qed.
+
+Definition dropped_weight (c : icfg) (keeps : list bool) (l : list pstate) : R :=
+  sumR (map2 (fun (b : bool) s => if b then 0 else Cmod (Cmult (wfac c) (sF s))) keeps l).
+
+(* mask_error_bound: dropping states whose |form * mod| <= eps changes the value by at most
+   eps * (sum over the dropped states of |w F_j|) *)
+Theorem mask_error_bound c x eps keeps l :
+  Forall2 (fun (b : bool) s => b = false -> Rabs (form c s) * modre c s <= eps) keeps l ->
+  Cmod (Cminus (img_all c x l) (img_list keeps c x l)) <= eps * dropped_weight c keeps l.
+Proof.
+  unfold img_all, dropped_weight. induction 1 as [|b s keeps l Hb _ IH].
+  - simpl. replace (Cminus (RtoC 0) (RtoC 0)) with (RtoC 0) by ring. rewrite Cmod_RtoC, Rabs_R0. lra.
+  - cbn [map sumC img_list map2 sumR].
+    set (A := sumC (map (term c x) l)) in *. set (B := img_list keeps c x l) in *.
+    destruct b.
+    + replace (Cminus (Cplus (term c x s) A) (Cplus (term c x s) B)) with (Cminus A B) by ring. lra.
+    + replace (Cminus (Cplus (term c x s) A) (Cplus (RtoC 0) B)) with (Cplus (term c x s) (Cminus A B)) by ring.
+      eapply Rle_trans; [apply Cmod_triangle|].
+      rewrite Cmod_term.
+      assert (0 <= Cmod (Cmult (wfac c) (sF s))) by apply Cmod_ge_0.
+      specialize (Hb eq_refl). nra.
+Qed.
+
+(* |numpy sinc| <= 1, so with a decaying modulation (re <= 0) the source's masks (|form| <= tol or
+   exp(|t| re) <= tol, tol <= 1) satisfy the hypothesis of mask_error_bound with eps = tol *)
+Lemma Rabs_sin_le x : Rabs (sin x) <= Rabs x.
+Proof.
+  destruct (Rtotal_order x 0) as [H|[->|H]].
+  - rewrite (Rabs_left x H). pose proof (sin_lt_x (- x)) as L. rewrite sin_neg in L.
+    pose proof (SIN_bound x). unfold Rabs. destruct (Rcase_abs (sin x)); [lra|].
+    destruct (Rle_or_lt (- x) 1); [|lra].
+    (* 0 <= sin x with -1 <= x < 0 : impossible unless ... use sin(-x) > 0 *)
+    assert (0 < sin (- x)) by (apply sin_gt_0; [lra|pose proof PI_4; pose proof PI2_3_2; lra]).
+    rewrite sin_neg in *. lra.
+  - rewrite sin_0. lra.
+  - rewrite (Rabs_right x) by lra. pose proof (sin_lt_x x H). pose proof (SIN_bound x).
+    unfold Rabs. destruct (Rcase_abs (sin x)); [|lra].
+    destruct (Rle_or_lt x 1); [|lra].
+    assert (0 < sin x) by (apply sin_gt_0; [lra|pose proof PI2_3_2; lra]). lra.
+Qed.
+
+Lemma sinc_np_le_1 u : Rabs (sinc_np u) <= 1.
+Proof.
+  unfold sinc_np. destruct (Req_EM_T u 0); [rewrite Rabs_R1; lra|].
+  assert (Hp : PI * u <> 0) by (apply Rmult_integral_contrapositive_currified; [apply PI_neq0|assumption]).
+  unfold Rdiv. rewrite Rabs_mult, Rabs_inv.
+  apply (Rmult_le_reg_r (Rabs (PI * u))); [now apply Rabs_pos_lt|].
+  rewrite Rmult_assoc, Rinv_l, Rmult_1_r, Rmult_1_l by (now apply Rabs_no_R0).
+  apply Rabs_sin_le.
+Qed.
+
+Lemma boxform_le_1 ds ks : Rabs (boxform ds ks) <= 1.
+Proof.
+  unfold boxform. revert ds. induction ks as [|k ks IH]; intros [|d ds]; cbn [map2 prodR]; try (rewrite Rabs_R1; lra).
+  rewrite Rabs_mult. pose proof (sinc_np_le_1 (sinc_arg k d)). specialize (IH ds).
+  pose proof (Rabs_pos (sinc_np (sinc_arg k d))). pose proof (Rabs_pos (prodR (map2 (fun k0 d0 => sinc_np (sinc_arg k0 d0)) ks ds))). nra.
+Qed.
+
+Lemma form_le_1 c s : Rabs (form c s) <= 1.
+Proof. unfold form. destruct (shape c); [rewrite Rabs_R1; lra|apply boxform_le_1]. Qed.
+
+Definition decaying (c : icfg) : Prop :=
+  match modul_eff c with Some (re, _) => re <= 0 | None => True end.
+
+Lemma modre_le_1 c s : decaying c -> modre c s <= 1.
+Proof.
+  unfold decaying, modre. destruct (modul_eff c) as [[re im]|]; [|lra]. intros Hre.
+  rewrite <- exp_0. destruct (Req_EM_T (Rabs (st s) * re) 0) as [->|Hn]; [lra|].
+  apply Rlt_le, exp_increasing. pose proof (Rabs_pos (st s)). nra.
+Qed.
+
+Theorem mask_error_bound_tol c x keeps l : decaying c -> 0 <= tol c ->
+  Forall2 (mask_ok c) keeps l ->
+  Cmod (Cminus (img_all c x l) (img c x l)) <= tol c * dropped_weight c keeps l.
+Proof.
+  intros Hd Ht Hm. rewrite <- (img_of_masks c x keeps l Hm). apply mask_error_bound.
+  induction Hm as [|b s keeps l [_ Hf] _ IH]; constructor; [|exact IH].
+  intros E. pose proof (form_le_1 c s) as F1. pose proof (modre_le_1 c s Hd) as M1.
+  pose proof (modre_pos c s) as M0. pose proof (Rabs_pos (form c s)) as F0.
+  destruct (Hf E) as [Hk|Hmm].
+  - unfold kdropP in Hk. destruct (shape c); [contradiction|]. nra.
+  - unfold mdropP in Hmm. destruct (modul_eff c); [|contradiction]. nra.
+Qed.
+
+(* ---------- point voxel, modulation ---------- *)
+Definition plain : icfg -> Prop := fun c =>
+  shape c = Point /\ modul_eff c = None /\ phase c = None /\ weight c = None.
+
+(* point_is_isochromat: the 'point' probe without options is the plain synthesis sum_j F_j e^{i k_j.x},
+   i.e. (C01/C04) the transverse magnetisation of the isochromat at x *)
+Theorem point_is_isochromat c x l : plain c ->
+  img c x l = sumC (map (fun s => Cmult (sF s) (cis (kdot (sk s) x))) l).
+Proof.
+  intros (Hs & Hm & Hp & Hw). unfold img.
+  induction l as [|s l IH]; [reflexivity|]. cbn [map img_list sumC]. rewrite IH.
+  unfold keepb, kkeepb, mkeepb. rewrite Hs, Hm. cbn [andb].
+  unfold term, form, modfac, modre, modim, phasefac, wfac. rewrite Hs, Hm, Hp, Hw. f_equal. ring.
+Qed.
+
+Definition offres_cfg (c : icfg) (f : R) : Prop :=
+  shape c = Point /\ timed c = true /\ modul c = Some (0, Some f) /\ phase c = None /\ weight c = None /\ tol c < 1.
+
+Lemma offres_term c f x s : offres_cfg c f ->
+  keepb c s = true /\ term c x s = Cmult (sF s) (cis (kdot (sk s) x + st s * (2 * PI * f))).
+Proof.
+  intros (Hs & Ht & Hm & Hp & Hw & Htol).
+  assert (He : modul_eff c = Some (0, Some f)) by (unfold modul_eff; now rewrite Ht).
+  split.
+  - unfold keepb, kkeepb, mkeepb, modre. rewrite Hs, He. rewrite Rmult_0_r, exp_0.
+    destruct (Rlt_dec (tol c) 1); [reflexivity|contradiction].
+  - unfold term, form, modfac, modre, modim, phasefac, wfac. rewrite Hs, He, Hp, Hw.
+    rewrite Rmult_0_r, exp_0, cis_add.
+    replace (st s * 2 * PI * f) with (st s * (2 * PI * f)) by ring. ring.
+Qed.
+
+(* modulation_imag_is_offres (1): with modulation = i f every state carries the t-character of frequency f *)
+Theorem modulation_imag_is_offres c f x l : offres_cfg c f ->
+  img c x l = sumC (map (fun s => Cmult (sF s) (cis (kdot (sk s) x + st s * (2 * PI * f)))) l).
+Proof.
+  intros H. unfold img. induction l as [|s l IH]; [reflexivity|]. cbn [map img_list sumC]. rewrite IH.
+  destruct (offres_term c f x s H) as [-> ->]. reflexivity.
+Qed.
+
+(* (2) ... which is the plain synthesis with the time axis as one more wavenumber column, evaluated at the
+   extended position (x, 2 pi f): off-resonance is a position on the time axis *)
+Definition lift_time (s : pstate) : pstate := mkPS (sF s) (sk s ++ [st s]) 0.
+
+Lemma kdot_app ks xs t y : length ks = length xs -> kdot (ks ++ [t]) (xs ++ [y]) = kdot ks xs + t * y.
+Proof.
+  revert xs. induction ks as [|k ks IH]; intros [|x0 xs] H; try discriminate; cbn [app kdot].
+  - ring.
+  - rewrite IH by (simpl in H; congruence). ring.
+Qed.
+
+Theorem modulation_imag_is_time_character c c0 f x l : offres_cfg c f -> plain c0 ->
+  List.Forall (fun s => length (sk s) = length x) l ->
+  img c x l = img c0 (x ++ [2 * PI * f]) (map lift_time l).
+Proof.
+  intros H H0 Hl. rewrite (modulation_imag_is_offres c f x l H), (point_is_isochromat c0 _ _ H0).
+  induction Hl as [|s l Hs Hl IH]; [reflexivity|]. cbn [map sumC]. rewrite IH. f_equal.
+  unfold lift_time. cbn [sF sk]. now rewrite kdot_app.
+Qed.
+
+(* (3) one step of the off-resonance semantics: accumulating the time tau on every state (operator C(tau))
+   multiplies the probed value by e^{2 pi i f tau} -- what P(tau, g = f) / E(tau, ., ., g = f) do to the
+   transverse magnetisation of every isochromat *)
+Definition shift_time (tau : R) (s : pstate) : pstate := mkPS (sF s) (sk s) (st s + tau).
+
+Theorem time_shift_is_precession c f x tau l : offres_cfg c f ->
+  img c x (map (shift_time tau) l) = Cmult (cis (2 * PI * f * tau)) (img c x l).
+Proof.
+  intros H. rewrite !(modulation_imag_is_offres c f x _ H).
+  induction l as [|s l IH]; [cbn [map sumC]; ring|]. cbn [map sumC]. rewrite IH.
+  unfold shift_time at 1 2 3. cbn [sF sk st].
+  replace (kdot (sk s) x + (st s + tau) * (2 * PI * f)) with (2 * PI * f * tau + (kdot (sk s) x + st s * (2 * PI * f))) by ring.
+  rewrite cis_add. ring.
+Qed.
+
+(* modulation_real: a real modulation r multiplies state j by exp(r |t_j|) and nothing else *)
+Definition no_modul (c : icfg) : icfg :=
+  mkCfg (shape c) (vsize c) (tol c) (timed c) None (phase c) (weight c).
+Definition damp (r : R) (s : pstate) : pstate :=
+  mkPS (Cmult (RtoC (exp (r * Rabs (st s)))) (sF s)) (sk s) (st s).
+
+Lemma no_modul_eff c : modul_eff (no_modul c) = None.
+Proof. unfold modul_eff, no_modul. cbn. now destruct (timed c). Qed.
+
+Theorem modulation_real c r x keeps l : timed c = true -> modul c = Some (r, None) ->
+  img_list keeps c x l = img_list keeps (no_modul c) x (map (damp r) l).
+Proof.
+  intros Ht Hm. assert (He : modul_eff c = Some (r, None)) by (unfold modul_eff; now rewrite Ht).
+  revert keeps. induction l as [|s l IH]; intros [|b keeps]; try reflexivity.
+  cbn [map img_list]. rewrite IH. f_equal. destruct b; [|reflexivity].
+  unfold term, form, modfac, modre, modim, phasefac, wfac. rewrite He, no_modul_eff.
+  cbn [shape vsize phase weight no_modul damp sF sk st].
+  replace (Rabs (st s) * r) with (r * Rabs (st s)) by ring. ring.
+Qed.
+
+(* ---------- weights and reduce ---------- *)
+Definition no_weight (c : icfg) : icfg :=
+  mkCfg (shape c) (vsize c) (tol c) (timed c) (modul c) (phase c) None.
+
+Theorem weights_scale_output c x keeps l :
+  img_list keeps c x l = Cmult (wfac c) (img_list keeps (no_weight c) x l).
+Proof.
+  revert keeps. induction l as [|s l IH]; intros [|b keeps]; cbn [img_list]; try ring.
+  rewrite IH. destruct b; [|ring].
+  unfold term. change (form (no_weight c) s) with (form c s). change (modfac (no_weight c) s) with (modfac c s).
+  change (wfac (no_weight c)) with (RtoC 1). ring.
+Qed.
+
+Lemma sumC_addrows a b : length a = length b -> sumC (addrows a b) = Cplus (sumC a) (sumC b).
+Proof.
+  revert b. induction a as [|x a IH]; intros [|y b] H; try discriminate; cbn [addrows sumC]; [ring|].
+  rewrite IH by (simpl in H; congruence). ring.
+Qed.
+Lemma length_reduce_ax0 n m : List.Forall (fun r => length r = n) m -> length (reduce_ax0 n m) = n.
+Proof.
+  induction 1 as [|r m Hr _ IH]; cbn [reduce_ax0]; [apply repeat_length|].
+  revert IH. generalize (reduce_ax0 n m). revert Hr. revert n. induction r as [|x r IHr]; intros n Hr [|y q] Hq; simpl in *; try congruence.
+  destruct n; [discriminate|]. f_equal. apply IHr; congruence.
+Qed.
+Lemma sumC_repeat0 n : sumC (repeat (RtoC 0) n) = RtoC 0.
+Proof. induction n; cbn [repeat sumC]; [reflexivity|]. rewrite IHn. ring. Qed.
+
+(* reduce_only_sums: reduce=True is the sum of every entry of the un-reduced output; reducing one axis and
+   then the other gives the same, in either order; reduce never changes an entry *)
+Theorem reduce_only_sums n m : List.Forall (fun r => length r = n) m ->
+  reduce_all m = sumC (reduce_ax1 m) /\ reduce_all m = sumC (reduce_ax0 n m).
+Proof.
+  intros H. split; [reflexivity|]. unfold reduce_all.
+  induction H as [|r m Hr Hm IH]; cbn [map sumC reduce_ax0]; [now rewrite sumC_repeat0|].
+  rewrite sumC_addrows by (now rewrite length_reduce_ax0). now rewrite IH.
+Qed.
+
+(* ---------- Imaging._acquire / System ---------- *)
+Theorem args_equal_system pops base m w x l :
+  fst (acquire pops base (mkOpts m w) (mkSys None None) x l) =
+  fst (acquire pops base (mkOpts None None) (mkSys m w) x l).
+Proof. unfold acquire, resolve_cfg, resolve. cbn. destruct m, w; reflexivity. Qed.
+
+Theorem arg_overrides_system pops base m w sys x l :
+  fst (acquire pops base (mkOpts (Some m) (Some w)) sys x l) =
+  fst (acquire pops base (mkOpts (Some m) (Some w)) (mkSys None None) x l).
+Proof. reflexivity. Qed.
+
+(* repeated use of one probe instance: without the option-popping the second acquisition equals the first *)
+Theorem repeated_use_stable base o sys x l :
+  let '(v1, v2) := acquire2 false base o sys x l in v1 = v2.
+Proof. reflexivity. Qed.
+
+(* with the option-popping found in probe.py 203/206 the second acquisition forgets the arguments *)
+Definition witness_base : icfg := mkCfg Point [] 0 false None None None.
+Definition witness_state : pstate := mkPS (RtoC 1) [] 0.
+
+Theorem repeated_use_refuted :
+  exists base o sys x l, let '(v1, v2) := acquire2 true base o sys x l in v1 <> v2.
+Proof.
+  exists witness_base, (mkOpts None (Some (RtoC 2))), (mkSys None None), [], [witness_state].
+  unfold acquire2, acquire, resolve_cfg, next_opts, img, resolve, keepb, kkeepb, mkeepb, modul_eff. cbn.
+  unfold term, form, modfac, modre, modim, phasefac, wfac, modul_eff. cbn.
+  rewrite cis_0. intros E. apply (f_equal fst) in E. simpl in E. lra.
+Qed.
+
+(* the same with the popped option being the modulation (the witness replayed on the implementation:
+   T(90,90) C(1) ADC probed with Imaging([0], modulation=0.1j, voxel_shape='point')) *)
+Example box_nonvacuous :
+  CInt (fun u => img_all (as_point witness_base) [u] [mkPS (RtoC 1) [2] 0]) (1 - 3 / 2) (1 + 3 / 2)
+       (Cmult (RtoC 3) (img_all (as_box witness_base [3]) [1] [mkPS (RtoC 1) [2] 0])).
+Proof. apply box_is_average_1d; [lra|]. constructor; [now exists 2|constructor]. Qed.
+
+(* ---------- box_is_average in RInt form (statement as in the property) ---------- *)
+Theorem box_is_average_cos k x D : D <> 0 ->
+  RInt (fun u => cos (k * u)) (x - D / 2) (x + D / 2) / D = cos (k * x) * sinc_np (k * D / 2 / PI).
+Proof.
+  intros HD. rewrite (is_RInt_unique _ _ _ _ (box_cos_all k x D HD)). unfold sinc_arg. field. exact HD.
+Qed.
+
+Theorem box_is_average_sin k x D : D <> 0 ->
+  RInt (fun u => sin (k * u)) (x - D / 2) (x + D / 2) / D = sin (k * x) * sinc_np (k * D / 2 / PI).
+Proof.
+  intros HD. rewrite (is_RInt_unique _ _ _ _ (box_sin_all k x D HD)). unfold sinc_arg. field. exact HD.
+Qed.
+
+(* k = 0: the form factor is 1 *)
+Theorem box_is_average_k0 x D : D <> 0 ->
+  RInt (fun u => cos (0 * u)) (x - D / 2) (x + D / 2) / D = 1 /\ sinc_np (0 * D / 2 / PI) = 1.
+Proof.
+  intros HD. split.
+  - rewrite (box_is_average_cos 0 x D HD), Rmult_0_l, cos_0.
+    rewrite sinc_np_0; [ring|unfold Rdiv; ring].
+  - apply sinc_np_0. unfold Rdiv; ring.
+Qed.
+
+(* the complex plane wave, as one integral with values in the normed module R x R (= C) *)
+Theorem box_is_average_cis k x D : D <> 0 ->
+  is_RInt (V := prod_NormedModule R_AbsRing R_NormedModule R_NormedModule)
+       (fun u => cis (k * u)) (x - D / 2) (x + D / 2)
+       (Cmult (RtoC D) (Cmult (RtoC (sinc_np (k * D / 2 / PI))) (cis (k * x)))).
+Proof. intros HD. exact (CInt_pair _ _ _ _ (box_cis k x D HD)). Qed.
